@@ -76,7 +76,9 @@ class QueueProcessing(Scheduling):
         # The starting number of temporary resources is the maximum
         # number of (greedy) allocations we can make
         max_allocations_iteration = len(temporary_resources)
-        for task in task_pool:
+        # Iterate in plan order: task_pool is a set of objects hashed by their
+        # string id, so its own order changes with the interpreter hash seed.
+        for task in [t for t in workflow_plan.tasks if t in task_pool]:
             # If we have exhausted all possible allocations for this
             # timest ep, there no need to keep iterating
             if len(allocations) >= max_allocations_iteration:
